@@ -577,7 +577,8 @@ def isoptionaltype(obj: type[_OT]) -> compat.TypeIs[type[tp.Optional[_OT]]]:
     """
     args = getattr(obj, "__args__", ())
     tname = name(origin(obj))
-    nullarg = next((a for a in args if a in (type(None), None)), ...)
+    # A member may name `None` through an alias or NewType (e.g., `type Null = None`).
+    nullarg = next((a for a in args if unwrap(a) in (type(None), None)), ...)
     isoptional = tname == "Optional" or (
         nullarg is not ... and tname in ("Union", "UnionType", "Literal")
     )
